@@ -273,6 +273,12 @@ def dispatchLine (st : DState) (line : String) : DState × List String :=
           | _ => bad "unparsable result"
       | _, _ => bad "unparsable op"
     | ["table"] => (st, [])
+    | ["decl", "registered"] =>
+      -- a storage type without default, registered with `register_with_storage`: `setup` of both handles finds it in place
+      -- and must neither panic nor replace it (outside the declaration model: judged directly)
+      let st := { hashIt st with decls := st.decls + 1 }
+      if rt == ["read=ok", "write=ok", "used=ok"] then (st, [])
+      else mon st s!"setup-of-a-handle-for-an-explicitly-registered-storage {" ".intercalate rt}"
     | "decl" :: kind =>
       let st := { hashIt st with decls := st.decls + 1 }
       let d? : Option Data := match kind with
